@@ -1,5 +1,583 @@
-//! C13 — concurrent readers (placeholder until the scheduler is written).
+//! C13 — concurrent readers get the answers sequential readers would.
+//!
+//! Scenarios (file, threads x calls, shared or per-thread resolver, cached or not) run inside worker processes
+//! because the failure mode is an abort (panic inside a drop guard).  Two drivers:
+//!  * scheduled: real threads stop at the `--cfg pdf_verif` yield points inside `Resolve::get`; a controller
+//!    grants one thread at a time following a choice sequence, and the parent enumerates the choice tree by
+//!    DFS with a preemption bound;
+//!  * stress: free-running threads, repeated.
+use crate::engine::bytes::{from_hex, to_hex, Bytes};
+use crate::engine::corpus;
+use crate::engine::docgen;
+use crate::engine::errs;
+use crate::engine::isolate::{self, Reply};
+use crate::engine::panics;
+use crate::engine::runner::{CaseInfo, Ctx, Failure, Tier};
+use crate::engine::val::{canon, from_primitive};
+use crate::engine::walker::{h64, Out};
+use pdf::file::FileOptions;
+use pdf::font::Font;
+use pdf::object::*;
+use pdf::primitive::Primitive;
+use serde::{Deserialize, Serialize};
 use serde_json::{json, Value};
-pub fn threads_job(_h: &Value, _blob: &[u8]) -> Value {
-    json!({"harness_error": "threads job not implemented"})
+use std::cell::Cell;
+use std::sync::atomic::{AtomicPtr, Ordering};
+use std::sync::{Condvar, Mutex};
+use std::time::{Duration, Instant};
+
+#[derive(Clone, Debug, PartialEq, Eq, Hash, Serialize, Deserialize)]
+pub enum TCall {
+    Resolve(u64),
+    GetPrimitive(u64),
+    GetPagesNode(u64),
+    GetFont(u64),
+    GetXObject(u64),
+    GetStreamData(u64),
+    Page(u32),
 }
+
+fn hs(x: impl std::hash::Hash) -> String {
+    format!("{:016x}", h64(x))
+}
+
+pub fn exec_on<R: Resolve>(r: &R, root: &Catalog, call: &TCall) -> Out {
+    let res = panics::catch(|| -> Result<String, pdf::error::PdfError> {
+        let pd = |p: &Primitive| -> Result<String, pdf::error::PdfError> {
+            let v = from_primitive(p, Some(r)).map_err(|m| pdf::error::PdfError::Other { msg: m })?;
+            Ok(hs(format!("{:?}", canon(&v))))
+        };
+        match call {
+            TCall::Resolve(n) => pd(&r.resolve(PlainRef { id: *n, gen: 0 })?),
+            TCall::GetPrimitive(n) => pd(&*r.get(Ref::<Primitive>::from_id(*n))?),
+            TCall::GetPagesNode(n) => {
+                let node = r.get(Ref::<PagesNode>::from_id(*n))?;
+                Ok(match *node {
+                    PagesNode::Leaf(ref p) => format!("leaf:{}", p.rotate),
+                    PagesNode::Tree(ref t) => format!("tree:{}:{}", t.count, t.kids.len()),
+                })
+            }
+            TCall::GetFont(n) => {
+                let f = r.get(Ref::<Font>::from_id(*n))?;
+                Ok(format!("{:?}:{:?}", f.subtype, f.name.as_ref().map(|n| n.as_str().to_string())))
+            }
+            TCall::GetXObject(n) => {
+                let x = r.get(Ref::<XObject>::from_id(*n))?;
+                Ok(match *x {
+                    XObject::Image(ref im) => format!("image:{}x{}", im.width, im.height),
+                    XObject::Form(ref f) => format!("form:{}", f.dict().form_type),
+                    XObject::Postscript(_) => "ps".into(),
+                })
+            }
+            TCall::GetStreamData(n) => {
+                let s = r.get(Ref::<Stream<()>>::from_id(*n))?;
+                let d = Stream::data(&s, r)?;
+                Ok(format!("{}B:{}", d.len(), hs(&d[..])))
+            }
+            TCall::Page(i) => {
+                let p = root.pages.page(r, *i)?;
+                Ok(format!("page:{}:{:?}", p.get_ref().get_inner().id, p.media_box().ok().map(|b| (b.right.to_bits(), b.top.to_bits()))))
+            }
+        }
+    });
+    match res {
+        Ok(Ok(d)) => Out::Ok(d),
+        Ok(Err(e)) => {
+            let text = format!("{:?}", e);
+            if text.contains("Recursive reference") {
+                Out::Err("RecursiveReference".into())
+            } else {
+                Out::Err(errs::root_kind(&e))
+            }
+        }
+        Err(p) => Out::Panic(if p.in_lib { p.key() } else { format!("harness-{}", p.key()) }),
+    }
+}
+
+// ------------------------------------------------------------------ the scheduler (child side)
+
+struct SchedState {
+    waiting: Vec<bool>,
+    finished: Vec<bool>,
+    granted: Option<usize>,
+    /// (thread, site) of every grant
+    trace: Vec<(usize, String)>,
+    /// at each decision: number of candidates
+    branching: Vec<usize>,
+}
+struct Sched {
+    st: Mutex<SchedState>,
+    cv: Condvar,
+}
+
+static CURRENT: AtomicPtr<Sched> = AtomicPtr::new(std::ptr::null_mut());
+thread_local! {
+    static TID: Cell<Option<usize>> = Cell::new(None);
+    static SITE: std::cell::RefCell<String> = std::cell::RefCell::new(String::new());
+}
+
+fn hook(site: &'static str, obj: u64) {
+    let Some(tid) = TID.with(|t| t.get()) else { return };
+    let p = CURRENT.load(Ordering::SeqCst);
+    if p.is_null() {
+        return;
+    }
+    let s: &Sched = unsafe { &*p };
+    SITE.with(|x| *x.borrow_mut() = format!("{}({})", site, obj));
+    yield_at(s, tid);
+}
+
+fn yield_at(s: &Sched, tid: usize) {
+    let mut st = s.st.lock().unwrap_or_else(|e| e.into_inner());
+    st.waiting[tid] = true;
+    s.cv.notify_all();
+    while st.granted != Some(tid) {
+        st = s.cv.wait(st).unwrap_or_else(|e| e.into_inner());
+    }
+    st.granted = None;
+    st.waiting[tid] = false;
+}
+
+/// Run `threads` closures under the controller, following `schedule` (choice index at each decision; 0 = keep
+/// running the thread that ran last if it is a candidate).  Returns (trace, branching, deadlock?).
+fn run_scheduled(n: usize, schedule: &[u8], bodies: Vec<Box<dyn FnOnce() + Send + '_>>) -> (Vec<(usize, String)>, Vec<usize>, bool) {
+    let sched = Sched { st: Mutex::new(SchedState { waiting: vec![false; n], finished: vec![false; n], granted: None, trace: Vec::new(), branching: Vec::new() }), cv: Condvar::new() };
+    CURRENT.store(&sched as *const Sched as *mut Sched, Ordering::SeqCst);
+    pdf::verif::set_yield_hook(Some(hook));
+    let mut deadlock = false;
+    std::thread::scope(|scope| {
+        for (tid, body) in bodies.into_iter().enumerate() {
+            let sched = &sched;
+            scope.spawn(move || {
+                TID.with(|t| t.set(Some(tid)));
+                SITE.with(|x| *x.borrow_mut() = "start".to_string());
+                yield_at(sched, tid);
+                body();
+                TID.with(|t| t.set(None));
+                let mut st = sched.st.lock().unwrap_or_else(|e| e.into_inner());
+                st.finished[tid] = true;
+                sched.cv.notify_all();
+            });
+        }
+        // controller
+        let mut last: Option<usize> = None;
+        let mut step = 0usize;
+        loop {
+            let mut st = sched.st.lock().unwrap_or_else(|e| e.into_inner());
+            // wait for quiescence: every unfinished thread is at a yield point (or blocked in a lock for > 30 ms)
+            let t0 = Instant::now();
+            loop {
+                let quiet = (0..n).all(|i| st.finished[i] || st.waiting[i]);
+                if quiet || t0.elapsed() > Duration::from_millis(30) {
+                    break;
+                }
+                let (g, _) = sched.cv.wait_timeout(st, Duration::from_millis(2)).unwrap_or_else(|e| e.into_inner());
+                st = g;
+            }
+            if (0..n).all(|i| st.finished[i]) {
+                break;
+            }
+            let mut cands: Vec<usize> = (0..n).filter(|&i| st.waiting[i] && !st.finished[i]).collect();
+            if cands.is_empty() {
+                // nobody is at a yield point: threads are running or blocked in a lock; give them time, then call it a deadlock
+                let t1 = Instant::now();
+                while (0..n).all(|i| st.finished[i] || !st.waiting[i]) && !(0..n).all(|i| st.finished[i]) {
+                    if t1.elapsed() > Duration::from_secs(5) {
+                        deadlock = true;
+                        break;
+                    }
+                    let (g, _) = sched.cv.wait_timeout(st, Duration::from_millis(5)).unwrap_or_else(|e| e.into_inner());
+                    st = g;
+                }
+                if deadlock {
+                    // cannot join blocked threads: leave the process (the parent sees the reply first)
+                    break;
+                }
+                continue;
+            }
+            // candidate order: the thread that ran last first (choice 0 = no preemption)
+            if let Some(l) = last {
+                if let Some(pos) = cands.iter().position(|&c| c == l) {
+                    cands.remove(pos);
+                    cands.insert(0, l);
+                }
+            }
+            let choice = schedule.get(step).copied().unwrap_or(0) as usize % cands.len();
+            st.branching.push(cands.len());
+            let pick = cands[choice];
+            st.trace.push((pick, String::new()));
+            st.granted = Some(pick);
+            last = Some(pick);
+            step += 1;
+            sched.cv.notify_all();
+            drop(st);
+        }
+        if deadlock {
+            pdf::verif::set_yield_hook(None);
+            CURRENT.store(std::ptr::null_mut(), Ordering::SeqCst);
+        }
+    });
+    pdf::verif::set_yield_hook(None);
+    CURRENT.store(std::ptr::null_mut(), Ordering::SeqCst);
+    let st = sched.st.into_inner().unwrap_or_else(|e| e.into_inner());
+    (st.trace, st.branching, deadlock)
+}
+
+/// Worker job: {mode: "scheduled" | "stress", calls: [[TCall]], shared_resolver, cached, schedule, repeat}
+pub fn threads_job(h: &Value, blob: &[u8]) -> Value {
+    let pw = h["password"].as_str().and_then(from_hex).unwrap_or_default();
+    let calls: Vec<Vec<TCall>> = serde_json::from_value(h["calls"].clone()).unwrap_or_default();
+    let shared = h["shared_resolver"].as_bool().unwrap_or(false);
+    let cached = h["cached"].as_bool().unwrap_or(false);
+    let schedule: Vec<u8> = serde_json::from_value(h["schedule"].clone()).unwrap_or_default();
+    let mode = h["mode"].as_str().unwrap_or("scheduled").to_string();
+    let repeat = h["repeat"].as_u64().unwrap_or(1);
+    macro_rules! with_doc {
+        ($file:expr) => {{
+            let file = $file;
+            let root = file.get_root();
+            // sequential reference: each call alone, on a fresh resolver
+            let expected: Vec<Vec<Out>> = calls.iter().map(|cs| cs.iter().map(|c| exec_on(&file.resolver(), root, c)).collect()).collect();
+            let mut result = json!({"expected": expected});
+            let mut all_outcomes: Vec<Vec<Vec<Out>>> = Vec::new();
+            let mut traces = Vec::new();
+            for _ in 0..repeat {
+                let outcomes: Vec<Mutex<Vec<Out>>> = calls.iter().map(|_| Mutex::new(Vec::new())).collect();
+                let shared_r = file.resolver();
+                let n = calls.len();
+                if mode == "scheduled" {
+                    let bodies: Vec<Box<dyn FnOnce() + Send + '_>> = (0..n)
+                        .map(|t| {
+                            let cs = &calls[t];
+                            let out = &outcomes[t];
+                            let shared_r = &shared_r;
+                            let file = &file;
+                            Box::new(move || {
+                                let own = file.resolver();
+                                for c in cs {
+                                    let o = if shared { exec_on(shared_r, root, c) } else { exec_on(&own, root, c) };
+                                    out.lock().unwrap().push(o);
+                                }
+                            }) as Box<dyn FnOnce() + Send + '_>
+                        })
+                        .collect();
+                    let (trace, branching, deadlock) = run_scheduled(n, &schedule, bodies);
+                    traces.push(json!({"grants": trace.iter().map(|t| t.0).collect::<Vec<_>>(), "branching": branching}));
+                    if deadlock {
+                        result["deadlock"] = json!(true);
+                        result["outcomes"] = json!(outcomes.iter().map(|m| m.lock().map(|g| g.clone()).unwrap_or_default()).collect::<Vec<_>>());
+                        return result;
+                    }
+                } else {
+                    let barrier = std::sync::Barrier::new(n);
+                    std::thread::scope(|scope| {
+                        for t in 0..n {
+                            let cs = &calls[t];
+                            let out = &outcomes[t];
+                            let shared_r = &shared_r;
+                            let file = &file;
+                            let barrier = &barrier;
+                            scope.spawn(move || {
+                                let own = file.resolver();
+                                barrier.wait();
+                                for c in cs {
+                                    let o = if shared { exec_on(shared_r, root, c) } else { exec_on(&own, root, c) };
+                                    out.lock().unwrap().push(o);
+                                }
+                            });
+                        }
+                    });
+                }
+                all_outcomes.push(outcomes.into_iter().map(|m| m.into_inner().unwrap_or_else(|e| e.into_inner())).collect());
+            }
+            result["runs"] = json!(all_outcomes);
+            result["traces"] = json!(traces);
+            result
+        }};
+    }
+    if cached {
+        match FileOptions::cached().password(&pw).load(blob.to_vec()) {
+            Ok(f) => with_doc!(f),
+            Err(e) => json!({"skipped": format!("load: {}", errs::root_kind(&e))}),
+        }
+    } else {
+        match FileOptions::uncached().password(&pw).load(blob.to_vec()) {
+            Ok(f) => with_doc!(f),
+            Err(e) => json!({"skipped": format!("load: {}", errs::root_kind(&e))}),
+        }
+    }
+}
+
+// ------------------------------------------------------------------ parent side
+
+#[derive(Clone, Debug, Serialize, Deserialize)]
+pub struct Scenario {
+    pub name: String,
+    pub file: Bytes,
+    pub password: Bytes,
+    pub calls: Vec<Vec<TCall>>,
+    pub shared_resolver: bool,
+    pub cached: bool,
+    pub mode: String,
+    pub schedule: Vec<u8>,
+    pub repeat: u64,
+}
+
+pub struct RunInfo {
+    pub branching: Vec<usize>,
+    pub grants: Vec<usize>,
+}
+
+pub fn check_scenario(s: &Scenario) -> Result<Option<RunInfo>, Failure> {
+    let art = || serde_json::to_value(s).unwrap();
+    let cfg = format!("{}-{}-{}", s.mode, if s.shared_resolver { "shared-resolver" } else { "own-resolvers" }, if s.cached { "cached" } else { "uncached" });
+    let header = json!({"kind": "threads", "password": to_hex(&s.password), "calls": s.calls, "shared_resolver": s.shared_resolver, "cached": s.cached, "mode": s.mode, "schedule": s.schedule, "repeat": s.repeat});
+    match isolate::request(&header, &s.file, Duration::from_secs(60)) {
+        Reply::Timeout { seconds } => Err(Failure::new("harness-c13-stall", format!("{}: no answer within {} s (inconclusive: stall)", cfg, seconds), json!({}))),
+        Reply::Died { signal, code, stderr_tail } => {
+            let what = if stderr_tail.contains("panic in a destructor") || stderr_tail.contains("panicked while") || stderr_tail.contains("cannot unwind") || stderr_tail.contains("assertion") { "panic-in-drop-guard" } else if stderr_tail.contains("overflowed its stack") { "stack-overflow" } else { "abort" };
+            Err(Failure::new(format!("c13:{}:process-abort:{}", cfg, what), format!("{}: worker died (signal {:?}, code {:?}): {}; calls {:?}", cfg, signal, code, stderr_tail, s.calls), art()))
+        }
+        Reply::Ok(r) => {
+            if r.get("skipped").is_some() {
+                return Ok(None);
+            }
+            if let Some(e) = r.get("harness_error") {
+                return Err(Failure::new("harness-worker", e.to_string(), json!({})));
+            }
+            let expected: Vec<Vec<Out>> = serde_json::from_value(r["expected"].clone()).unwrap_or_default();
+            if r["deadlock"].as_bool().unwrap_or(false) {
+                return Err(Failure::new(format!("c13:{}:deadlock", cfg), format!("{}: no thread can proceed (all unfinished threads blocked for 5 s); calls {:?} schedule {:?}", cfg, s.calls, s.schedule), art()));
+            }
+            let runs: Vec<Vec<Vec<Out>>> = serde_json::from_value(r["runs"].clone()).unwrap_or_default();
+            for run in &runs {
+                for (t, outs) in run.iter().enumerate() {
+                    for (k, o) in outs.iter().enumerate() {
+                        let want = &expected[t][k];
+                        if o != want {
+                            let kind = match o {
+                                Out::Panic(p) => format!("panic:{}", p),
+                                Out::Err(e) if e == "RecursiveReference" => "spurious-recursive-reference".to_string(),
+                                _ => "wrong-answer".to_string(),
+                            };
+                            return Err(Failure::new(format!("c13:{}:{}", cfg, kind), format!("{}: thread {} call {} {:?}: concurrent {:?}, alone {:?}; all calls {:?}; schedule {:?}", cfg, t, k, s.calls[t][k], o, want, s.calls, s.schedule), art()));
+                        }
+                    }
+                    if outs.len() != expected[t].len() {
+                        return Err(Failure::new(format!("c13:{}:thread-did-not-finish", cfg), format!("{}: thread {} produced {} of {} outcomes", cfg, t, outs.len(), expected[t].len()), art()));
+                    }
+                }
+            }
+            let info = r["traces"].as_array().and_then(|a| a.first()).map(|t| RunInfo { branching: serde_json::from_value(t["branching"].clone()).unwrap_or_default(), grants: serde_json::from_value(t["grants"].clone()).unwrap_or_default() });
+            Ok(info)
+        }
+    }
+}
+
+pub fn replay(_ctx: &Ctx, _check: &str, art: &Value, info: &mut CaseInfo) -> Result<(), Failure> {
+    let s: Scenario = serde_json::from_value(art.clone()).map_err(|e| Failure::new("harness-bad-artifact", e.to_string(), json!({})))?;
+    info.nontrivial(true);
+    // a concurrency failure may need several attempts to show again in stress mode
+    let mut s2 = s.clone();
+    if s2.mode == "stress" {
+        s2.repeat = s2.repeat.max(200);
+    }
+    check_scenario(&s2).map(|_| ())
+}
+
+/// Enumerate schedules for one scenario by DFS over the choice tree with a preemption bound.
+fn enumerate(ctx: &Ctx, base: &Scenario, max_schedules: u64, info: &mut CaseInfo) -> Result<u64, Failure> {
+    let mut schedule: Vec<u8> = Vec::new();
+    let mut count = 0u64;
+    let max_preempt = 3usize;
+    loop {
+        let mut s = base.clone();
+        s.schedule = schedule.clone();
+        let Some(run) = check_scenario(&s)? else { return Ok(count) };
+        count += 1;
+        let preempts = schedule.iter().filter(|c| **c != 0).count();
+        if preempts > 0 {
+            info.label("schedule/with-preemption");
+        }
+        let _ = ctx;
+        // next schedule: increment the deepest choice that still has an alternative, within the preemption bound
+        let mut full: Vec<u8> = schedule.clone();
+        full.resize(run.branching.len(), 0);
+        let mut next: Option<Vec<u8>> = None;
+        for i in (0..full.len()).rev() {
+            let used_before = full[..i].iter().filter(|c| **c != 0).count();
+            if (full[i] as usize) + 1 < run.branching[i] && (full[i] != 0 || used_before < max_preempt) {
+                let mut n = full[..=i].to_vec();
+                n[i] += 1;
+                next = Some(n);
+                break;
+            }
+        }
+        match next {
+            Some(n) if count < max_schedules => schedule = n,
+            _ => return Ok(count),
+        }
+    }
+}
+
+struct Source {
+    name: String,
+    data: Vec<u8>,
+    pw: Vec<u8>,
+    pages: u32,
+    nodes: Vec<u64>,
+    fonts: Vec<u64>,
+    streams: Vec<u64>,
+    xobjects: Vec<u64>,
+    others: Vec<u64>,
+}
+
+fn survey(name: &str, data: Vec<u8>, pw: Vec<u8>) -> Option<Source> {
+    let f = FileOptions::uncached().password(&pw).load(data.clone()).ok()?;
+    let r = f.resolver();
+    let size = (f.trailer.size.max(0) as u64).min(300);
+    let mut s = Source { name: name.to_string(), data: data.clone(), pw: pw.clone(), pages: f.num_pages().min(4), nodes: vec![], fonts: vec![], streams: vec![], xobjects: vec![], others: vec![] };
+    for n in 1..size {
+        let Ok(p) = r.resolve(PlainRef { id: n, gen: 0 }) else { continue };
+        let d = match &p {
+            Primitive::Dictionary(d) => Some(d.clone()),
+            Primitive::Stream(st) => Some(st.info.clone()),
+            _ => None,
+        };
+        let ty = d.as_ref().and_then(|d| d.get("Type")).and_then(|t| t.as_name().ok()).map(|x| x.to_string());
+        match (ty.as_deref(), &p) {
+            (Some("Page"), _) | (Some("Pages"), _) => s.nodes.push(n),
+            (Some("Font"), _) => s.fonts.push(n),
+            (Some("XObject"), _) => s.xobjects.push(n),
+            (_, Primitive::Stream(_)) => s.streams.push(n),
+            _ => s.others.push(n),
+        }
+    }
+    Some(s)
+}
+
+fn pick_calls(src: &Source, seed: u64, threads: usize, per: usize, same_key: bool) -> Vec<Vec<TCall>> {
+    let mut x = seed.wrapping_mul(6364136223846793005).wrapping_add(1442695040888963407);
+    let mut next = || {
+        x = x.wrapping_mul(6364136223846793005).wrapping_add(1442695040888963407);
+        (x >> 33) as usize
+    };
+    let mut pool: Vec<TCall> = Vec::new();
+    for n in src.nodes.iter().take(4) {
+        pool.push(TCall::GetPagesNode(*n));
+    }
+    for n in src.fonts.iter().take(3) {
+        pool.push(TCall::GetFont(*n));
+    }
+    for n in src.xobjects.iter().take(3) {
+        pool.push(TCall::GetXObject(*n));
+    }
+    for n in src.streams.iter().take(3) {
+        pool.push(TCall::GetStreamData(*n));
+    }
+    for n in src.others.iter().take(3) {
+        pool.push(TCall::GetPrimitive(*n));
+        pool.push(TCall::Resolve(*n));
+    }
+    for i in 0..src.pages {
+        pool.push(TCall::Page(i));
+    }
+    if pool.is_empty() {
+        return vec![];
+    }
+    let shared_call = pool[next() % pool.len()].clone();
+    (0..threads)
+        .map(|_| {
+            (0..per)
+                .map(|k| if same_key && k == 0 { shared_call.clone() } else { pool[next() % pool.len()].clone() })
+                .collect()
+        })
+        .collect()
+}
+
+pub fn run(ctx: &Ctx) {
+    let mut sources: Vec<Source> = Vec::new();
+    for f in corpus::load(&ctx.verif_dir, false) {
+        if f.data.len() < 60_000 {
+            if let Some(s) = survey(&f.name, f.data, f.password) {
+                sources.push(s);
+            }
+        }
+    }
+    let strat = docgen::spec_strategy();
+    for k in 0..ctx.tier.pick(10, 60) {
+        let spec = crate::engine::runner::nth_case(&strat, ctx.seed.wrapping_mul(211).wrapping_add(3), k);
+        let b = docgen::build(&spec);
+        if let Some(s) = survey(&format!("generated-{}", k), b.file, b.password) {
+            sources.push(s);
+        }
+    }
+    if sources.len() < 8 {
+        ctx.harness_error("too few sources for C13");
+        return;
+    }
+    // 1. scheduled: per scenario, DFS over grant sequences with <= 3 preemptions
+    let mut scenarios: Vec<Scenario> = Vec::new();
+    let per_scenario = ctx.tier.pick(60, 4000);
+    let n_scen = ctx.tier.pick(160, 800) as usize;
+    for k in 0..n_scen {
+        let src = &sources[k % sources.len()];
+        let threads = 2 + (k / 7) % 2;
+        let per = 1 + (k / 3) % 2;
+        let calls = pick_calls(src, ctx.seed.wrapping_add(k as u64 * 977), threads, per, k % 2 == 0);
+        if calls.is_empty() {
+            continue;
+        }
+        scenarios.push(Scenario { name: src.name.clone(), file: Bytes(src.data.clone()), password: Bytes(src.pw.clone()), calls, shared_resolver: k % 4 < 2, cached: k % 3 == 0, mode: "scheduled".into(), schedule: vec![], repeat: 1 });
+    }
+    let schedules_total = std::sync::atomic::AtomicU64::new(0);
+    ctx.run_enum(
+        "scheduled-interleavings",
+        scenarios.len() as u64,
+        |k| k as usize,
+        |k, info| {
+            let s = &scenarios[*k];
+            info.label(if s.shared_resolver { "resolver/shared" } else { "resolver/own" });
+            info.label(if s.cached { "cache/SyncCache" } else { "cache/none" });
+            info.label(format!("threads/{}", s.calls.len()));
+            let same = s.calls.len() >= 2 && s.calls[0].first() == s.calls[1].first();
+            info.label(if same { "keys/same-first-call" } else { "keys/different" });
+            info.distinct((&s.name, format!("{:?}", s.calls), s.shared_resolver, s.cached));
+            let n = enumerate(ctx, s, per_scenario, info)?;
+            schedules_total.fetch_add(n, Ordering::Relaxed);
+            // every executed schedule is one evaluation (the scenario itself is counted by the driver)
+            ctx.report.lock().unwrap().evaluations += n.saturating_sub(1);
+            info.nontrivial(n > 1);
+            info.sample = Some(json!({"file": s.name, "calls": format!("{:?}", s.calls), "shared_resolver": s.shared_resolver, "cached": s.cached, "schedules_run": n}));
+            Ok(())
+        },
+    );
+    ctx.set_extra("schedules_executed", json!(schedules_total.load(Ordering::Relaxed)));
+    // 2. stress: free-running threads on the real caches
+    let stress_n = ctx.tier.pick(120, 2000) as usize;
+    let mut stress: Vec<Scenario> = Vec::new();
+    for k in 0..stress_n {
+        let src = &sources[(k * 5 + 1) % sources.len()];
+        let calls = pick_calls(src, ctx.seed.wrapping_add(50_000 + k as u64 * 131), if ctx.tier == Tier::Quick { 4 } else { 8 }, 12, k % 2 == 0);
+        if calls.is_empty() {
+            continue;
+        }
+        stress.push(Scenario { name: src.name.clone(), file: Bytes(src.data.clone()), password: Bytes(src.pw.clone()), calls, shared_resolver: k % 2 == 0, cached: k % 4 < 2, mode: "stress".into(), schedule: vec![], repeat: ctx.tier.pick(40, 300) });
+    }
+    ctx.run_enum(
+        "stress-free-running-threads",
+        stress.len() as u64,
+        |k| k as usize,
+        |k, info| {
+            let s = &stress[*k];
+            info.label(if s.shared_resolver { "resolver/shared" } else { "resolver/own" });
+            info.label(if s.cached { "cache/SyncCache" } else { "cache/none" });
+            info.nontrivial(true);
+            info.distinct((&s.name, format!("{:?}", s.calls), s.shared_resolver, s.cached));
+            info.sample = Some(json!({"file": s.name, "threads": s.calls.len(), "calls_per_thread": s.calls[0].len(), "repeat": s.repeat}));
+            check_scenario(s).map(|_| ())
+        },
+    );
+}
+
+pub const RULE: &str = "cases = (document, 2-3 threads x 1-2 calls from {typed get of a page-tree node / font / XObject / stream, raw resolve, page look-up}, shared or per-thread resolver, SyncCache or no cache); scheduled driver: the threads stop at the hook points inside Resolve::get (after the recursion-guard push, at the start of the cache's compute closure, before the guard pop) and a controller grants one thread at a time; the parent enumerates the grant-choice tree by DFS with at most 3 preemptions per schedule (bounded number of schedules per scenario); stress driver: 4-8 free-running threads x 12 calls repeated 40-300 times; every scenario runs in a worker process; oracle = each call's outcome equals its outcome when issued alone; no panic in any thread, no process abort (failed guard assertion in a destructor), no 'Recursive reference' error that the sequential run lacks, no state where all unfinished threads stay blocked; a stall is inconclusive (exit 2), not a violation; non-trivial = a scenario with more than one schedule executed / any stress scenario; distinct by (document, calls, configuration)";
